@@ -1133,7 +1133,8 @@ func runC03(e *Env) error {
 		return c03Replay(e)
 	}
 	c03TempMaps(e)
-	r.Rule = "(f) one render looping over thousands of short-lived maps with forced collections in between; (e) regression corpora with required outputs (8 pinned defects 30×, 25 repaired defects 200×, 1 child process each); " +
+	c03EvalOrder(e)
+	r.Rule = "(g) evaluation order of 12 hash-literal / include-with entries observed through callbacks, 25 renders each, with two fault positions; (f) one render looping over thousands of short-lived maps with forced collections in between; (e) regression corpora with required outputs (8 pinned defects 30×, 25 repaired defects 200×, 1 child process each); " +
 		"(a) random programs over maps (12 Go map types incl. float keys with a NaN, array/struct keys and interface{} keys of mixed types that print alike, " +
 		"3–16 entries, 34 loop/filter forms + 6 failing ones, 17 hash-literal forms incl. duplicate keys, include-with, macros): " +
 		"30 in-process renders on fresh engines with a fresh insertion order each, sampled cases also in 3 child processes; " +
